@@ -8,7 +8,7 @@
 #include "dwit_protos.h"
 #include "dw_model2.h"
 int verif_raised;
-int g_par[NN]; unsigned long g_off[NN]; unsigned g_n;
+int g_par[NN]; unsigned long g_off[NN]; unsigned g_n; _Bool g_claims_children[NN];   /* left nondeterministic */
 int nondet_int(void); unsigned nondet_uint(void); unsigned long nondet_ulong(void);
 
 static void any_forest(void)
@@ -16,7 +16,7 @@ static void any_forest(void)
   g_n = nondet_uint(); __CPROVER_assume(g_n >= 1 && g_n <= NN);
   for (int i = 0; i < NN; ++i)
     {
-      g_par[i] = nondet_int(); g_off[i] = nondet_ulong();
+      g_par[i] = nondet_int(); g_off[i] = nondet_ulong(); g_claims_children[i] = nondet_int() & 1;
       __CPROVER_assume(g_off[i] < 1000000);
       if (i == 0) __CPROVER_assume(g_par[0] == -1 && g_off[0] == HS);      /* the first unit header is at offset 0 */
       else
